@@ -61,7 +61,7 @@ pub enum Event {
     /// A loop made one iteration.
     Tick(u8),
     /// `RangeEncoder::write_low` entry.
-    RcShift { cachesz: u32, carry: bool },
+    RcShift { cachesz: u32, carry: bool, low: u64 },
 }
 
 type Observer = Box<dyn FnMut(&Event)>;
